@@ -8,7 +8,7 @@
    check C09Check applies to the observations of the real crate (cb = the logged calls). *)
 From Coq Require Import List Arith Bool Permutation Sorted ZArith NArith.
 Import ListNotations.
-From Cao Require Import CardAst Table Value RefSem StdSpec StdRun C09Proofs SortOrderProofs C09Natives C09Cards C09Check.
+From Cao Require Import CardAst Table Value RefSem StdSpec StdRun C09Proofs SortOrderProofs C09Natives C09Cards C09Wrappers C09Check.
 
 (* ========================================================================================== *)
 (* A. what the specification functions mean                                                   *)
@@ -320,6 +320,108 @@ Proof.
     eexists _, s'. split; [exact Hr|]. rewrite Hh, nth_error_app1; [exact Hp | apply nth_error_Some; congruence].
 Qed.
 Print Assumptions C09_std_inputs_unchanged.
+
+(* ---- the seven thin wrappers: to_array, min/max/sorted_by_key (a Return of the native call) and
+   min / max / sorted (the _by_key function with std.row_to_value as the key function; the names
+   resolve through the program, hence the [resolve] hypotheses) ---- *)
+Theorem C09_std_to_array :
+  forall P host idx s p tb,
+    has_std P idx s_to_array -> nth_error (st_heap s) p = Some tb ->
+    exists s',
+      runs P host (TkCallFn idx [VTable p]) s (ok [VTable (length (st_heap s))] empty_env s') /\
+      st_heap s' = st_heap s ++ [spec_to_array k_idx tb] /\
+      st_globals s' = st_globals s /\ st_log s' = st_log s.
+Proof. exact std_to_array_correct. Qed.
+Print Assumptions C09_std_to_array.
+
+Theorem C09_std_sorted_by_key :
+  forall P host idx keyfn cb s p tb,
+    has_std P idx s_sorted_by_key ->
+    nth_error (st_heap s) p = Some tb -> wf_table tb ->
+    pure_cb_on P host two_args keyfn cb ->
+    (forall e, In e tb -> key_valid (key_by_cb of_key cb e) = true) ->
+    exists s',
+      runs P host (TkCallFn idx [keyfn; VTable p]) s (ok [VTable (length (st_heap s))] empty_env s') /\
+      st_heap s' = st_heap s ++ [spec_sorted (sort_lt (st_heap s)) (key_by_cb of_key cb) tb] /\
+      st_globals s' = st_globals s /\ st_log s' = st_log s.
+Proof. exact std_sorted_by_key_correct_in. Qed.
+Print Assumptions C09_std_sorted_by_key.
+
+Theorem C09_std_min_max_by_key :
+  forall P host idx fname nname keyfn cb s p tb,
+    (fname = s_min_by_key /\ nname = n_min) \/ (fname = s_max_by_key /\ nname = n_max) ->
+    has_std P idx fname ->
+    nth_error (st_heap s) p = Some tb ->
+    pure_cb_on P host two_args keyfn cb ->
+    exists s',
+      match spec_best (cmp_is (st_heap s) (if str_eqb nname n_min then Lt else Gt)) (key_by_cb of_key cb) tb with
+      | None =>
+          runs P host (TkCallFn idx [keyfn; VTable p]) s (ok [VNil] empty_env s') /\
+          st_heap s' = st_heap s
+      | Some e =>
+          runs P host (TkCallFn idx [keyfn; VTable p]) s (ok [VTable (length (st_heap s))] empty_env s') /\
+          st_heap s' = st_heap s ++ [row_table (of_key (fst e)) (snd e)]
+      end /\ st_globals s' = st_globals s /\ st_log s' = st_log s.
+Proof. exact std_min_max_by_key_correct. Qed.
+Print Assumptions C09_std_min_max_by_key.
+
+(* std.row_to_value is a pure key function on two-argument calls: it returns the value *)
+Theorem C09_row_to_value_pure :
+  forall P host idx, has_std P idx s_row_to_value ->
+    pure_cb_on P host two_args (VFn idx) (fun args => nth 0 args VNil).
+Proof. exact row_to_value_pure. Qed.
+Print Assumptions C09_row_to_value_pure.
+
+Theorem C09_std_sorted :
+  forall P host idx idx2 idx3 s p tb,
+    has_std P idx s_sorted ->
+    resolve P idx s_sorted_by_key = Some idx2 -> has_std P idx2 s_sorted_by_key ->
+    resolve P idx s_row_to_value = Some idx3 -> has_std P idx3 s_row_to_value ->
+    nth_error (st_heap s) p = Some tb -> wf_table tb ->
+    (forall e, In e tb -> key_valid (snd e) = true) ->
+    exists s',
+      runs P host (TkCallFn idx [VTable p]) s (ok [VTable (length (st_heap s))] empty_env s') /\
+      st_heap s' = st_heap s ++ [spec_sorted (sort_lt (st_heap s)) (@key_by_value tkey value) tb] /\
+      st_globals s' = st_globals s /\ st_log s' = st_log s.
+Proof. exact std_sorted_correct. Qed.
+Print Assumptions C09_std_sorted.
+
+Theorem C09_std_min_max :
+  forall P host idx idx2 idx3 fname bname nname s p tb,
+    (fname = s_min /\ bname = s_min_by_key /\ nname = n_min) \/
+    (fname = s_max /\ bname = s_max_by_key /\ nname = n_max) ->
+    has_std P idx fname ->
+    resolve P idx bname = Some idx2 -> has_std P idx2 bname ->
+    resolve P idx s_row_to_value = Some idx3 -> has_std P idx3 s_row_to_value ->
+    nth_error (st_heap s) p = Some tb ->
+    exists s',
+      match spec_best (cmp_is (st_heap s) (if str_eqb nname n_min then Lt else Gt)) (@key_by_value tkey value) tb with
+      | None =>
+          runs P host (TkCallFn idx [VTable p]) s (ok [VNil] empty_env s') /\
+          st_heap s' = st_heap s
+      | Some e =>
+          runs P host (TkCallFn idx [VTable p]) s (ok [VTable (length (st_heap s))] empty_env s') /\
+          st_heap s' = st_heap s ++ [row_table (of_key (fst e)) (snd e)]
+      end /\ st_globals s' = st_globals s /\ st_log s' = st_log s.
+Proof. exact std_min_max_correct. Qed.
+Print Assumptions C09_std_min_max.
+
+(* non-table inputs through the card wrappers *)
+Theorem C09_std_passthrough :
+  forall P host idx fname keyfn s v,
+    (forall q, v <> VTable q) ->
+    (has_std P idx s_to_array ->
+       exists s', runs P host (TkCallFn idx [v]) s (ok [v] empty_env s') /\
+                  st_heap s' = st_heap s /\ st_globals s' = st_globals s /\ st_log s' = st_log s) /\
+    (fname = s_min_by_key \/ fname = s_max_by_key \/ fname = s_sorted_by_key -> has_std P idx fname ->
+       exists s', runs P host (TkCallFn idx [keyfn; v]) s (ok [v] empty_env s') /\
+                  st_heap s' = st_heap s /\ st_globals s' = st_globals s /\ st_log s' = st_log s).
+Proof.
+  intros P host idx fname keyfn s v Hv. split.
+  - intros H. exact (std_to_array_passthrough P host idx s v H Hv).
+  - intros Hn H. exact (std_by_key_passthrough P host idx fname keyfn s v Hn H Hv).
+Qed.
+Print Assumptions C09_std_passthrough.
 
 (* ========================================================================================== *)
 (* D. the checker's orderings on trees                                                         *)
